@@ -473,6 +473,34 @@ func c10GenResults(t *rapid.T, n int) []c10Res {
 		}
 		return rs
 	}
+	if tsKind != 0 && n >= 2 && rapid.IntRange(0, 5).Draw(t, "negative") == 0 {
+		// latencies below zero (a result file may hold them: the clock stepped back during the exchange): the end of such
+		// a result lies before its start, and when it started last the whole attack "ends" before its latest start. Every
+		// result still ends after the earliest start, so that the attack's span - the throughput's denominator - is positive.
+		latestAt, earliest := 0, rs[0].TS
+		for i := range rs {
+			if rs[i].TS >= rs[latestAt].TS {
+				latestAt = i
+			}
+			earliest = min(earliest, rs[i].TS)
+		}
+		for k, m := 0, rapid.IntRange(1, 3).Draw(t, "nneg"); k < m; k++ {
+			i := latestAt
+			if k > 0 {
+				i = rapid.IntRange(0, n-1).Draw(t, fmt.Sprintf("negat%d", k))
+			}
+			if room := rs[i].TS - earliest - 1; room >= 1 {
+				rs[i].Latency = -rapid.Int64Range(1, room).Draw(t, fmt.Sprintf("neg%d", k))
+			}
+		}
+		if rapid.Bool().Draw(t, "allshort") { // nothing else ends after the latest start
+			for i := range rs {
+				if rs[i].Latency > 0 {
+					rs[i].Latency = rs[i].Latency % 1000
+				}
+			}
+		}
+	}
 	// where on the time line: mostly 1970..2100, sometimes across the ends of the int64 nanosecond clock
 	// (1677-09-21, 2262-04-11) or near the years 1 and 9999 (all of which every codec carries)
 	epoch := int64(0)
